@@ -358,7 +358,15 @@ class Funcs:
         if name == "erf":
             return math.erf(a[0])
         if name.startswith("bessel"):
-            raise Unsupported("bessel functions in concrete replay")
+            try:
+                import mpmath
+            except ImportError:
+                raise Unsupported("bessel functions in concrete replay (mpmath missing)")
+            fn = {"J": mpmath.besselj, "Y": mpmath.bessely, "I": mpmath.besseli, "K": mpmath.besselk}[name[-1]]
+            v = fn(a[0], a[1])
+            if abs(complex(v).imag) > 1e-12:
+                raise Unsupported("bessel function of this argument is not real")
+            return float(complex(v).real)
         return getattr(math, {"ln": "log"}.get(name, name))(a[0])
 
     def _axioms_for(self, name, args, t):
